@@ -33,6 +33,8 @@ func main() {
 		os.Exit(cmdVerify(os.Args[2:]))
 	case "check":
 		os.Exit(cmdCheck(os.Args[2:]))
+	case "callees":
+		os.Exit(cmdCallees(os.Args[2:]))
 	case "replay":
 		os.Exit(cmdReplay(os.Args[2:]))
 	case "selftest":
@@ -70,7 +72,7 @@ func cmdVerify(args []string) int {
 		}
 		x := sym.NewExec(p.Prog, p.Specs)
 		t0 := time.Now()
-		rep := x.VerifyFunc(fn)
+		rep := x.Verify(fn)
 		gen := time.Since(t0)
 		var ps []*sym.Prepared
 		for _, o := range rep.Obligations {
